@@ -16,7 +16,7 @@ SUBJECT = {
  'PF20': ['fix: Struct._update must refresh'], 'PF21': ['fix: Struct._update must not edit'], 'PF22': ['fix: a nested hybrid object'], 'PF23': ['fix: a dressed object kept for a reference'], 'PF24': ['fix: from_dict lost the renamed fields of nested'], 'PF25': ['fix: update_from_buffer must count'], 'PF26': ['fix: BufferNumpy.update_from_nplike refused'], 'PF27': ['fix: a reference field set to None'], 'PF28': ['fix: a raw struct assigned to a nested'], 'PF29': ['fix: to_dict compared array fields'], 'PF30': ['fix: an array of references built from a list'], 'PF31': ['fix: an N-d xobject array used as the value'], 'PF32': ['fix: update_from_buffer must take the byte count of any'], 'PF33': ['fix: BufferByteArray.update_from_native could not'], 'PF34': ['fix: BufferByteArray.update_from_nplike raised for 0-d'], 'PF35': ['fix: an xobject array living in a BufferByteArray'], 'PF36': ['fix: numpy arrays in non-native byte order'], 'PF37': ['fix: a 0-d numpy array was passed'], 'PF38': ['fix: a UnionRef could not be constructed'], 'PF39': ['fix: XBuffer.allocate recursed once'], 'PF40': ['fix: a context restored from a pickle'], 'PF41': ['fix: objects of an OpenMP context'], 'PF42': ['fix: to_dict stored a string field'], 'PF43': ['fix: a sequence written into a scalar slot'], 'PF44': ['fix: a String created from a capacity'], 'PF45': ['fix: the C length of an array'], 'PF46': ['fix: to_nplike/to_nparray raised AssertionError', 'fix: to_nparray raised AssertionError'], 'PF47': ['fix: a static array could not be built'], 'PF48': ['fix: an N-d array field or item'], 'PF49': ['fix: N-d arrays of dynamically sized items'], 'PF50': ['fix: static-shape arrays of dynamically'],
  'PF51': ['fix: a String object assigned to a string field'], 'PF52': ['fix: a refused whole-value update'], 'PF53': ['fix: arrays of dynamically sized items with spare room'],
  'PF54': ['fix: array classes with a dynamic shape declared by a class statement'], 'PF55': ['fix: a hybrid object given to the constructor under the struct name'],
- 'PF56': ['fix: from_dict lost the renamed fields of a hybrid object held'], 'PF57': ['fix: a class reusing the xo.Field objects'], 'PF58': ['fix: C accessors dropped a field offset that is a numpy integer'], 'PF59': ['fix: an index with more entries than the array has axes'], 'PF60': ['fix: to_dict raised NotImplementedError for a hybrid class with an array of structs'], 'PF61': ['fix: a fixed-shape array of dynamically sized items built without arguments'], 'PF62': ['fix: a buffer accepted grow_step <= 0'],
+ 'PF56': ['fix: from_dict lost the renamed fields of a hybrid object held'], 'PF57': ['fix: a class reusing the xo.Field objects'], 'PF58': ['fix: C accessors dropped a field offset that is a numpy integer'], 'PF59': ['fix: an index with more entries than the array has axes'], 'PF60': ['fix: to_dict raised NotImplementedError for a hybrid class with an array of structs'], 'PF61': ['fix: a fixed-shape array of dynamically sized items built without arguments'], 'PF62': ['fix: a buffer accepted grow_step <= 0'], 'PF63': ['fix: the JSON form of an array with more than one axis'],
 }
 k = json.load(open(K))
 for e in k['fixed']:
